@@ -18,3 +18,8 @@ ASSUME.update({
          "shard/overlay/namespace/proxycache/cond/union combinators: executable models tied by the correspondence only (no refinement proof yet); proxycache eviction not modelled (cache contents not compared)",
          "OS file system and third-party KV engines behave as maps (C10); stat requests contain no duplicate refs"],
 })
+ASSUME.update({
+ "C02": ["the hash functions have no collisions on the generated inputs (the model abstracts 'the first n bytes hash to the ref' to a predicate; the theorems hold for every predicate)",
+         "net/http's multipart parser and chunked decoding are exercised, not modelled; the consume-then-commit shape of each backend's ReceiveBlob is validated by the correspondence",
+         "16 MiB boundary cases run on memory, localdisk and diskpacked only"],
+})
